@@ -184,4 +184,57 @@ def marginalNum (as : List (List Nat × Rat)) (i j : Nat) : Rat :=
 
 def total (as : List (List Nat × Rat)) : Rat := rsum (as.map (·.2))
 
+/-- value of `g` at the path that assignment σ gives to ensemble i (0 if σ has no ensemble i) -/
+def atEns (σ : List Nat) (i : Nat) (g : Nat → Rat) : Rat :=
+  match σ[i]? with
+  | some j => g j
+  | none => 0
+
+/-! ### all assignments of n paths to n ensembles, with the weights Π_i W[i, σ(i)] -/
+
+def insertAt (k x : Nat) (l : List Nat) : List Nat := l.take k ++ x :: l.drop k
+
+/-- all permutations of 0..n-1 as lists (position i ↦ σ(i)): insert n-1 … at every position -/
+def perms : Nat → List (List Nat)
+  | 0 => [[]]
+  | n + 1 => (perms n).flatMap (fun p => (List.range (n + 1)).map (fun k => insertAt k n p))
+
+/-- Π_i W[i][σ(i)] (an index outside the row contributes the factor 0) -/
+def prodW : List (List Rat) → List Nat → Rat
+  | [], _ => 1
+  | _ :: _, [] => 1
+  | row :: rows, j :: t => row.getD j 0 * prodW rows t
+
+/-- the permutation distribution of the ∞-swap step, unnormalised -/
+def assignments (W : List (List Rat)) : List (List Nat × Rat) :=
+  (perms W.length).map (fun σ => (σ, prodW W σ))
+
+/-- the matrix of marginals P[i][j] = Σ_{σ(i)=j} Π W / Σ_σ Π W; `none` when the permanent is 0 -/
+def margMatrix (W : List (List Rat)) : Option (List (List Rat)) :=
+  let as := assignments W
+  if total as = 0 then none
+  else some ((List.range W.length).map (fun i => (List.range W.length).map (fun j => marginalNum as i j / total as)))
+
+/-! ### path lengths on the lattice: exact references with their boundary-value problems -/
+
+/-- expected number of steps until the walk started on `x` leaves (0, N) -/
+def exitTime (N x : Nat) : Rat := (x : Rat) * ((N : Rat) - (x : Rat))
+
+/-- E[ steps · 1{site N is reached before site 0} ] for the walk started on `x` -/
+def hitTime (N x : Nat) : Rat := (x : Rat) * ((N : Rat) * (N : Rat) - (x : Rat) * (x : Rat)) / (3 * (N : Rat))
+
+/-- first-step equations of the exit time: 0 on both ends, 1 + mean of the neighbours inside -/
+def ExitTimeEq (N : Nat) (t : Nat → Rat) : Prop :=
+  t 0 = 0 ∧ t N = 0 ∧ ∀ x, 0 < x → x < N → t x = 1 + (t (x - 1) + t (x + 1)) / 2
+
+/-- first-step equations of E[steps · 1{N first}]: 0 on both ends,
+    P(N first | x) + mean of the neighbours inside (one step is spent on the event with probability `ruin N x`) -/
+def HitTimeEq (N : Nat) (m : Nat → Rat) : Prop :=
+  m 0 = 0 ∧ m N = 0 ∧ ∀ x, 0 < x → x < N → m x = Lattice.ruin N x + (m (x - 1) + m (x + 1)) / 2
+
+/-- mean number of frames of a path of the ensemble of data column k (ensemble [(k-1)+]) with n interfaces:
+    frame on site 0, frame on site 1, the steps from site 1 to site k given that k is reached before 0
+    (`hitTime k 1 / ruin k 1`), the steps from site k until site 0 or site n (`exitTime n k`) -/
+def meanLen (n k : Nat) : Rat := 2 + hitTime k 1 / Lattice.ruin k 1 + exitTime n k
+
 end Infretis.LatticeMoves
